@@ -62,6 +62,61 @@ def run(ctx, rep):
     rep.guarded("R08-CONST", lambda: c08.r_const(ctx.shape, rep))
     rep.rule("R08-TERM", "whatever term the flat decoder builds, the encoder accepts (shared with C08)", floor=30)
     rep.guarded("R08-TERM", lambda: c08.r_term(ctx.shape, rep))
+    rep.rule("R20-NONEMPTY", "an Aiken parser action that converts a parsed sequence into a non-empty vector with `.try_into().expect(..)` is fed by a combinator that demands at least one element (discharges those reviewed expects)", floor=2)
+    rep.guarded("R20-NONEMPTY", lambda: r_nonempty(ctx.shape, rep))
+    rep.rule("R20-LAZYERR", "in Parameter::validate's helpers, an error value whose construction can panic (unwrap / expect inside) is built lazily — under ok_or_else / a closure — never eagerly on the success path", floor=1)
+    rep.guarded("R20-LAZYERR", lambda: r_lazyerr(ctx.shape, rep))
     rep.rule("R15-TOTAL", "UPLC grammar actions contain no unwrap/expect/panic and index only under a reviewed guard (rule shared with C15)", floor=5)
     from . import c15
     rep.guarded("R15-TOTAL", lambda: c15.r_total(ctx.shape, rep, peg_grammar(ctx.shape.file(c15.G), "uplc")))
+
+
+def r_nonempty(sh, rep):
+    """`let = 1` must be a parse error. The chumsky actions of `let` / `expect` turn the parsed patterns into a Vec1 with
+    `.try_into().expect(..)`, which is safe only because the sequence parser in front says `.at_least(1)`."""
+    n = 0
+    for rel in sh.files():
+        if not rel.startswith("crates/aiken-lang/src/parser/") or "/tests" in rel:
+            continue
+        fj = sh.file(rel)
+        fns = dict((q.split("::")[-1], f) for q, f in all_fns(fj) if "body" in f)
+
+        def has_at_least(f, depth=0):
+            for c in walk(f["body"]):
+                if c.get("k") == "MethodCall" and c["m"] == "at_least" and c["args"] and c["args"][0].get("k") == "Lit" and str(c["args"][0].get("v")) not in ("0",):
+                    return True
+            if depth < 2:
+                for c in calls_in(f["body"]):
+                    g = fns.get(last(call_name(c) or ""))
+                    if g is not None and g is not f and has_at_least(g, depth + 1):
+                        return True
+            return False
+
+        for name, f in fns.items():
+            sites = [c for c in walk(f["body"]) if c.get("k") == "MethodCall" and c["m"] in ("expect", "unwrap") and c["recv"].get("k") == "MethodCall" and c["recv"]["m"] == "try_into"]
+            for c in sites:
+                n += 1
+                rep.touched(rel, name)
+                rep.check(has_at_least(f), "R20-NONEMPTY", "%s#%s#fed-by-at_least" % (rel.split("/parser/")[-1], name), sh.loc(rel, c), "%s converts the parsed sequence with `.try_into().%s(..)` but no combinator in front of it (in %s or the sequence parsers it calls) demands `.at_least(1)`: an empty sequence — `let = 1`, `expect <- f(x)` — reaches the %s and panics the parser" % (name, c["m"], name, c["m"]))
+    if n < 2:
+        raise AnchorMissing("`.try_into().expect(..)` conversions in the Aiken parser (found %d, 2 on the pinned tree)" % n)
+
+
+def r_lazyerr(sh, rep):
+    PRM = "crates/aiken-project/src/blueprint/parameter.rs"
+    n = 0
+    for q, f in all_fns(sh.file(PRM)):
+        if "body" not in f:
+            continue
+        for c in walk(f["body"]):
+            if c.get("k") == "MethodCall" and c["m"] in ("ok_or", "ok_or_else", "unwrap_or", "unwrap_or_else", "map_err") and c["args"]:
+                arg = c["args"][0]
+                risky = [x for x in walk(arg) if x.get("k") == "MethodCall" and x["m"] in ("unwrap", "expect")]
+                if not risky:
+                    continue
+                n += 1
+                rep.touched(PRM, q)
+                lazy = arg.get("k") == "Closure"
+                rep.check(lazy, "R20-LAZYERR", "%s#%s#panicking-default-is-lazy" % (q, c["m"]), sh.loc(PRM, c), "%s builds the fallback of `.%s(..)` eagerly although it contains `.%s()`: the fallback is evaluated on the success path as well, so a blueprint for which it cannot be built (a constructor field declared inline, without $ref) panics for every argument" % (q, c["m"], risky[0]["m"]))
+    if n < 1:
+        raise AnchorMissing("fallbacks containing unwrap/expect in blueprint/parameter.rs")
